@@ -596,6 +596,9 @@ func c09BigFrame() qframe.QFrame {
 			fs[i] = 9223372036854775808 * float64(1+i%3) // whole numbers beyond the int64 range
 		case i%13 == 6:
 			fs[i] = -9.5e18
+		case i%17 == 9:
+			// shortest representations of exactly 10 digits on both sides of 2^32, 9 and 11 digits, long zero runs
+			fs[i] = []float64{5000000001, 61234567.89, 4294967296, 9876543210, 3.141592653, 2147483648, 4294967295, 999999999, 12345678901, 3e40, 1.000000001e-05}[(i/17)%11]
 		default:
 			fs[i] = float64(i) / 4
 		}
@@ -914,7 +917,7 @@ func c09Run(ctx *core.Ctx) {
 		pairDepth = 2
 	}
 	ops := c01Ops()
-	for init := 0; init < 4; init++ {
+	for _, init := range []int{0, 1, 2, 3, 5} {
 		fam := c09Family(init, depth)
 		ctx.Add("family_frames", int64(len(fam))/int64(ctx.NShards))
 		// per-frame observer agreement
